@@ -146,7 +146,7 @@ func (r *Runner) dbDir() string {
 func (r *Runner) mergeDir() string { return filepath.Join(r.Root, "db-merge") }
 
 func (r *Runner) options(c Config, dir string) kv.Options {
-	if r.C.ZeroTail {
+	if r.C.ZeroTail || r.C.StdIO {
 		c.IO = 0
 	}
 	return kv.Options{
